@@ -231,6 +231,34 @@ def gen_S(r, nparams=None, p_default=0.5, p_none=0.5, with_return=None, max_para
     return {"name": r.choice(["F", "F", "train_model", "C_1", None, "x"]), "doc": gen_doc(r), "params": params, "returns": ret}
 
 
+RET_DEFAULTS = {
+    "int": [["i", 0], ["i", 0], ["i", 3], ["i", -3], ["i", 42], ["i", 2 ** 70]],
+    "float": [["f", "0.0"], ["f", "0.0"], ["f", "1.5"], ["f", "-2.5"], ["f", "0.001"], ["f", "100.0"], ["f", "-0.0"]],
+    "bool": [["b", False], ["b", False], ["b", True]],
+    "str": [["s", "abc"], ["s", "mnist"], ["s", "a b"], ["s", "5"], ["s", "a_b"], ["s", "~/data"], ["s", ""], ["s", "x.y"]],
+}
+
+
+def gen_retdefault_S(r):
+    """An interface whose *return entry* carries a typed default (it travels through the description text as
+    "… Defaults to X"); falsy defaults (0, 0.0, False) are drawn often.  Outside the Lean description model: oracle only."""
+    S = gen_S(r, with_return=True, max_params=4)
+    b = r.choice(["int", "float", "bool", "str"])
+    ret = {"typ": {"opt": r.random() < 0.25, "base": b}, "doc": None, "default": r.choice(RET_DEFAULTS[b]), "none_as": "NoneStr"}
+    k = r.random()
+    if k < 0.08:
+        ret["doc"] = r.choice([None, ""])
+    elif k < 0.5:
+        ret["doc"] = r.choice(["the outcome.", "the outcome", "Result value.", "x", "the trained model (or nothing).", "a: b, c"])
+    else:
+        ret["doc"] = gen_line(r, 50, ret=True)
+    if ret["typ"]["opt"] and r.random() < 0.2:
+        ret["default"] = ["n"]
+        ret["none_as"] = r.choice(NONE_REPRS)
+    S["returns"] = ret
+    return S
+
+
 def to_py_ir(S) -> dict:
     """The IR dict handed to the real emitter (fresh objects on every call: the emitter mutates its input)."""
     params = OrderedDict()
@@ -246,6 +274,8 @@ def to_py_ir(S) -> dict:
         rt = {"typ": render_typ(S["returns"]["typ"])}
         if S["returns"]["doc"] is not None:
             rt["doc"] = S["returns"]["doc"]
+        if S["returns"].get("default") is not None:
+            rt["default"] = default_to_py(S["returns"]["default"], S["returns"].get("none_as", "NoneStr"))
         ret = OrderedDict((("return_type", rt),))
     return {"name": S["name"], "doc": S["doc"], "params": params, "returns": ret, "type": "static"}
 
@@ -253,7 +283,7 @@ def to_py_ir(S) -> dict:
 def S_for_model(S) -> dict:
     return {"name": S["name"], "doc": S["doc"],
             "params": [[nm, {"typ": p["typ"], "doc": p["doc"], "default": p["default"]}] for nm, p in S["params"]],
-            "returns": S["returns"]}
+            "returns": None if S["returns"] is None else {"typ": S["returns"]["typ"], "doc": S["returns"]["doc"]}}
 
 
 # ------------------------------------------------------------------------------------------------------------------
